@@ -1,5 +1,5 @@
 /*VERIF
-{ "tu": "src/shims/lock.c", "enforce": "_dispatch_thread_event_wait", "props": ["C05", "C10", "C01"],
+{ "tu": "src/shims/lock.c", "enforce": "_dispatch_thread_event_wait", "props": ["C05", "C10", "C01", "C02"],
   "nondet_volatile": true, "timeout": 120,
   "assumes": ["rely: the event word only holds 0 (signalled and consumed), 1 (signalled early) or UINT32_MAX (waiter parked) while one waiter and one signaller use it; other values are the 'corrupt' client crash",
               "for(;;) of the slow path closed by a loop contract (no termination claim: waiting is liveness)"],
